@@ -43,7 +43,7 @@ _GOMINI_TRUSTED = ["Go values are encoded as terms by the harness (variables by 
                    "the encoding is injective (C04_encoding_faithful) and the harness reads bindings back through the exported API (CastVar/Get)",
                    "gomini's concurrent engine (goroutines, channels, WaitGroup, context) is Go runtime: modelled, not verified"]
 PROPS["C04"] = dict(
-    model="GVal.v",
+    model="GCore.v (transcription of gomini/unify.go over Reflect.v) + GVal.v (injective encoding; gunify = unify on encodings)",
     harness=[dict(name="main", n_quick=1500, n_thorough=2500, shards_quick=1, shards_thorough=10)],
     trusted=_GOMINI_TRUSTED + ["the harness's independent reference unifier (oracle for verdict / most-general / content independence)"],
     assumptions=["every EqualO compares two values of one static Go type (guaranteed by the generic signature)",
@@ -71,7 +71,7 @@ PROPS["C05"] = dict(
 
 import gens
 PROPS["C08"] = dict(
-    model="Reify.v",
+    model="Reify.v; GCore.v (grewrite: transcription of gomini rewrite over Reflect.v)",
     harness=[dict(name="main", n_quick=1500, n_thorough=2500, shards_quick=1, shards_thorough=8)],
     trusted=_PROG_TRUSTED + _GOMINI_TRUSTED,
     assumptions=["reified names are the ordinary symbols _k (a user symbol _k is indistinguishable from a reified variable)"],
